@@ -10,7 +10,7 @@ import os, sys, json, random, subprocess, re, shutil
 from fractions import Fraction
 from common import *
 
-N_THEOREMS = 22
+N_THEOREMS = 25
 
 # ------------------------------------------------------------------------------------------- cases
 # A case is a dict; numbers are ints k meaning k/8, or 'I' / '-I'.
@@ -25,7 +25,7 @@ def csr(rows):
 
 
 def case_line(c):
-    t = ['C', c['id'], c['api'], c['text'], c['comments'], c['flags'], c['n']]
+    t = ['C', c['id'], c.get('session', 0), c['api'], c['text'], c['comments'], c['flags'], c['n']]
     t.append(1 if c['types'] is not None else 0)
     if c['types'] is not None:
         t += c['types']
@@ -62,7 +62,7 @@ def case_line(c):
 
 
 def base_case(cid, n, m):
-    return {'id': cid, 'api': 0, 'text': 1, 'comments': 1, 'flags': 1, 'n': n, 'types': None, 'lb': [0] * n, 'ub': [80] * n,
+    return {'id': cid, 'session': 0, 'api': 0, 'text': 1, 'comments': 1, 'flags': 1, 'n': n, 'types': None, 'lb': [0] * n, 'ub': [80] * n,
             'sense': 0, 'c0': 0, 'c': [0] * n, 'qfmt': 1, 'Q': [[] for _ in range(n)], 'm': m, 'rlb': ['-I'] * m, 'rub': [80] * m,
             'A': [[] for _ in range(m)], 'ws': [], 'dws': [], 'sufs': [], 'cn': None, 'rn': None, 'objname': 'obj',
             'solfmt': 0, 'solx': [8 * (i + 1) for i in range(n)], 'soly': [8] * m, 'code': 0, 'ssuf': []}
@@ -105,6 +105,20 @@ def corpus_cases():
     c = base_case('cxcdual', 2, 2)
     c.update(api=1, A=[[(0, 8)], [(1, 8)]], ws=[(0, 24)], dws=[(1, 16)])
     out.append(c)
+    # a history: three models with different sizes and permutations through ONE NLSolver / PreprocessData
+    # (C++ API), then the same through the C wrapper: the exported permutation must be that of the last model
+    for tag, api, sess in (('h', 0, 9001), ('hc', 1, 9002)):
+        c = base_case(tag + '1', 3, 1)
+        c.update(session=sess, api=api, types=[1, 0, 1], lb=[0, 0, 0], ub=[40, 80, 8], c=[8, 0, 0], A=[[(0, 8), (1, 8)]],
+                 ssuf=[{'name': 'sstatus', 'kind': 0, 'entries': [(0, 8), (1, 16), (2, 24)]}])
+        out.append(c)
+        c = base_case(tag + '2', 4, 0)
+        c.update(session=sess, api=api, types=[0, 1, 0, 0], lb=[0, 0, 0, 0], ub=[40, 8, 80, 80], c=[0, 0, 16, 0],
+                 Q=[[], [], [], [(3, 16)]], c0=8, solx=[8, 16, 24, 32], ssuf=[{'name': 'sstatus', 'kind': 0, 'entries': [(0, 8), (3, 16)]}])
+        out.append(c)
+        c = base_case(tag + '3', 2, 1)
+        c.update(session=sess, api=api, types=[1, 0], lb=[0, 0], ub=[40, 80], c=[8, 16], A=[[(1, 8)]], solx=[24, 40])
+        out.append(c)
     # healthy QP: diagonal Hessian on three columns
     c = base_case('okdiag', 4, 1)
     c.update(types=[1, 0, 1, 1], lb=[0, -8, 0, 0], ub=[8, 8, 8, 24], Q=[[(0, 16)], [(1, 8)], [], [(3, 24)]], c=[8, 0, -8, 0], A=[[(0, 8), (2, 16)]],
@@ -373,6 +387,9 @@ def oracle(c, lines):
         return L[k][0] if k in L else None
     perm = [int(x) for x in one('perm')[2:]]
     inv = [int(x) for x in one('inv')[2:]]
+    if c.get('session') and (len(perm) != n or len(inv) != n):
+        bad.append(('history:exported-permutation-size', 'after a second model through the same PreprocessData the exported permutation has %d/%d entries for %d columns: %s / %s' % (len(perm), len(inv), n, perm, inv)))
+        return bad
     if sorted(perm) != list(range(n)) or len(inv) != n or any(inv[perm[j]] != j for j in range(n)):
         bad.append(('perm:not-a-bijection', 'reported permutation %s / inverse %s' % (perm, inv)))
         return bad
@@ -633,9 +650,33 @@ def run(ck):
     cases = corpus_cases()
     ncorp = len(cases)
     ngen = 40000 if ck.tier == 'thorough' else 4000
-    for i in range(ngen):
-        cases.append(gen_case(rng, 'g%d' % i, ck.tier, hist))
+    i = 0
+    nsess = 0
+    while i < ngen:
+        if rng.random() < 0.12:
+            # a history: 2-4 models through one NLSolver (and one PreprocessData), solution read after each
+            nsess += 1
+            k = rng.choice([2, 2, 3, 4])
+            api = 1 if rng.random() < 0.3 else 0
+            for _ in range(k):
+                c = gen_case(rng, 'g%d' % i, ck.tier, hist)
+                c['session'] = nsess
+                if rng.random() < 0.8:
+                    c['api'] = api
+                    if api == 1 and c['dws']:
+                        c['dws'] = [(r_, v_) for (r_, v_) in c['dws'] if r_ < c['m']]
+                cases.append(c); i += 1
+            h = hist.setdefault('history_length', {}); h[str(k)] = h.get(str(k), 0) + 1
+        else:
+            cases.append(gen_case(rng, 'g%d' % i, ck.tier, hist)); i += 1
     byid = {c['id']: c for c in cases}
+    pos_of = {c['id']: k_ for k_, c in enumerate(cases)}
+
+    def replay_lines(c):
+        """the case line, preceded by the earlier cases of its session (a history is replayed as a whole)"""
+        if not c.get('session'):
+            return case_line(c)
+        return '\n'.join(case_line(x) for x in cases[:pos_of[c['id']] + 1] if x.get('session') == c['session'])
     exe = build_harness(ck)
     drv = ck.driver('drv_c08')
     cf, impl, rc, err = run_harness(exe, cases, 'main')
@@ -662,7 +703,7 @@ def run(ck):
             sigcount[sig] = sigcount.get(sig, 0) + 1
         for sig, what in obad:
             ck.add_violation(sig, '%s [case %s]' % (what, cid),
-                             {'case': case_line(c), 'case_id': cid, 'observed': G[cid][:40], 'expected': what,
+                             {'case': replay_lines(c), 'case_id': cid, 'observed': G[cid][:40], 'expected': what,
                               'how': './check C08 --replay <this file>  (runs harness/h_easy.cc on the case line against $MP_REPO)'})
         ml = M.get(cid, [])
         n_lines += len(G[cid])
@@ -674,7 +715,7 @@ def run(ck):
             # a disagreement with a failing oracle on a signature that is not a known finding is already reported above
             ck.add_violation('corr:%s' % kind, 'Lean model and real code disagree on case %s: real "%s" / model "%s"%s' %
                              (cid, diff[0][:300], diff[1][:300], '' if obad else ' (property oracle is satisfied on this case: model drift or a change outside the oracle)'),
-                             {'case': case_line(c), 'case_id': cid, 'impl_line': diff[0], 'model_line': diff[1], 'correspondence': 'drv_c08 vs harness/h_easy.cc'},
+                             {'case': replay_lines(c), 'case_id': cid, 'impl_line': diff[0], 'model_line': diff[1], 'correspondence': 'drv_c08 vs harness/h_easy.cc'},
                              found_input=bool(obad))
         nontrivial.add((c['n'], c['m'], tuple(len(r) for r in c['Q']), c['api'], c['text'], len(c['sufs']), len(c['ws'])))
         if len(ck.cov['samples']) < 6 and cid.startswith('g'):
